@@ -284,8 +284,11 @@ class Coupled:
         return self.w.cache["knit_tree"]
 
     def fresh(self):
-        from breezy.workingtree import WorkingTree
-        self.tree = WorkingTree.open(self.dir)
+        from breezy.controldir import ControlDir
+        from breezy.transport import get_transport_from_path
+        if getattr(self, "_t", None) is None:
+            self._t = get_transport_from_path(self.dir)
+        self.tree = ControlDir.open_from_transport(self._t).open_workingtree()
         self.objs = {"tree": self.tree, "branch": self.tree.branch, "repo": self.tree.branch.repository}
 
     def held(self, rel):
@@ -302,6 +305,12 @@ class Coupled:
             "tree_physical": self.held("checkout"),
             "branch_physical": self.held("branch"),
             "repo_physical": self.held("repository"),
+            # the documented counters (LockableFiles ":ivar _lock_count"), so that a hidden change of a
+            # hold count is attributed to the step that caused it
+            "tree_count": self.tree._control_files._lock_count,
+            "branch_count": self.tree.branch.control_files._lock_count,
+            "repo_count": (getattr(self.tree.branch.repository, "_write_lock_count", 0)
+                           or self.tree.branch.repository.control_files._lock_count),
         }
 
     def do(self, obj, m):
@@ -408,57 +417,81 @@ class CModel:
             "tree_physical": self.t[0] == "w",
             "branch_physical": self.b[0] == "w",
             "repo_physical": self.r[0] == "w" and self.repo_physical,
+            "tree_count": self.t[1],
+            "branch_count": self.b[1],
+            "repo_count": self.r[1],
         }
 
 
 def run_coupled(c, seq, acc):
     c.fresh()
     m = CModel(repo_physical=(c.fmt != "2a"))
+    direct = {"tree": 0, "branch": 0, "repo": 0}
+    total = {"tree": lambda: m.t[1], "branch": lambda: m.b[1], "repo": lambda: m.r[1]}
     fail = None
     used = 0
+    last_refused = None
     acc.states.add(("coupled", c.fmt, m.key()))
     for obj, op in seq:
+        if op == "U" and direct[obj] == 0 and total[obj]() > 0:
+            # the caller would release a hold that belongs to the containing object: the part
+            # cannot tell, the statement does not cover it -> outside the explored space
+            acc.count("coupled_pruned")
+            break
         used += 1
         before = m.key()
         trial = m.copy()
         accepted = getattr(trial, obj)(op)
         kind, val = c.do(obj, op)
         if kind == "crash":
-            fail = "%s.%s:%s" % (obj, op, val)
+            fail = ("%s.%s:%s" % (obj, op, val), {})
             break
         if accepted != (kind == "ok"):
-            fail = "%s.%s:%s" % (obj, op, "accepted-but-must-be-refused" if kind == "ok"
-                                 else "refused-%s-but-must-be-accepted" % val)
+            fail = ("%s.%s:%s" % (obj, op, "accepted-but-must-be-refused" if kind == "ok"
+                                  else "refused-%s-but-must-be-accepted" % val), {})
             break
         if accepted:
             m = trial
+            direct[obj] += -1 if op == "U" else 1
+        else:
+            last_refused = "%s.%s(refused-%s)" % (obj, op, val)
         obs = c.observe()
         exp = m.expected()
         diff = sorted(k for k in exp if exp[k] != obs[k])
+        if diff and not accepted and not any(k.startswith(obj) for k in diff):
+            fail = ("%s:changes-lock-state-of-part" % last_refused, {"observed": obs, "expected": exp})
+            break
         if diff:
             k = diff[0]
-            fail = "%s.%s%s:%s=%r-expected-%r" % (obj, op, "" if accepted else "(refused)", k, obs[k], exp[k])
+            fail = ("%s.%s%s:%s=%r-expected-%r" % (obj, op, "" if accepted else "(refused-%s)" % val, k, obs[k], exp[k]),
+                    {"observed": obs, "expected": exp})
             break
         acc.trans.add(("coupled", c.fmt, before, obj, op, kind if kind == "ok" else val))
         acc.states.add(("coupled", c.fmt, m.key()))
         acc.count("coupled_steps")
-    # drain through the model's view: unlock tree, then branch, then repo as often as held
+    # drain: every caller releases what it took, outermost object first
     if fail is None:
         for obj in ("tree", "branch", "repo"):
-            while getattr(m, obj)("U"):
+            while direct[obj] > 0:
+                getattr(m, obj)("U")
+                direct[obj] -= 1
                 kind, val = c.do(obj, "U")
                 if kind != "ok":
-                    fail = "%s.U(drain):%s" % (obj, val)
+                    if last_refused:
+                        fail = ("%s:changes-lock-state-of-part" % last_refused,
+                                {"note": "the later matching %s.unlock() was refused with %s" % (obj, val)})
+                    else:
+                        fail = ("%s.U(drain):%s" % (obj, val), {})
                     break
             if fail:
                 break
         if fail is None:
             obs = c.observe()
-            if any(obs[k] for k in obs if k != "branch_mode") or obs["branch_mode"] is not None:
-                fail = "drain:not-clean-%s" % sorted(k for k in obs if obs[k])[0]
+            if any(obs[k] for k in obs):
+                fail = ("drain:not-clean-%s" % sorted(k for k in obs if obs[k])[0], {"observed": obs})
     if fail is not None:
         c.cleanup()
-        return fail, list(seq[:used])
+        return fail[0], list(seq[:used]), fail[1]
     return None
 
 
@@ -478,10 +511,12 @@ def _work_coupled(chunk):
                 acc.nt(("coupled", fmt, seq))
             r = run_coupled(c, seq, acc)
             if r is not None:
-                what, upto = r
-                sig = "coupled-%s:%s" % (fmt, what)
+                what, upto, extra = r
+                sig = "coupled:%s" % what
                 acc.count("violations_raw")
-                acc.keep(sig, {"format": fmt, "sequence": ["%s.%s" % x for x in upto]})
+                d = {"format": fmt, "sequence": ["%s.%s" % x for x in upto]}
+                d.update(extra)
+                acc.keep(sig, d)
     return acc
 
 
@@ -491,11 +526,11 @@ PLAN = [
     ("counted_lock", True, (6, 8)),
     ("lockable_files", False, (6, 8)),
     ("lockable_files", True, (6, 8)),
-    ("knit_repository", False, (6, 8)),
-    ("knit_repository", True, (6, 7)),
-    ("pack_repository", False, (6, 8)),
-    ("branch", False, (6, 8)),
-    ("branch", True, (6, 7)),
+    ("knit_repository", False, (5, 7)),
+    ("knit_repository", True, (5, 7)),
+    ("pack_repository", False, (5, 7)),
+    ("branch", False, (5, 7)),
+    ("branch", True, (5, 7)),
     ("working_tree", False, (6, 8)),
 ]
 
@@ -530,6 +565,7 @@ def run(ctx):
         "evaluations": acc.n + acc2.n,
         "sequences_single_object": acc.n,
         "sequences_coupled": acc2.n,
+        "coupled_sequences_cut_at_foreign_unlock": acc2.counters.get("coupled_pruned", 0),
         "steps_checked": acc.counters.get("steps", 0) + acc2.counters.get("coupled_steps", 0),
         "states": len(acc.states) + len(acc2.states),
         "transitions": len(acc.trans) + len(acc2.trans),
